@@ -8,7 +8,7 @@ ROOT = os.path.dirname(os.path.dirname(os.path.abspath(__file__)))
 TRUSTED = ("Trusted: Lean 4.33 kernel (axioms per theorem audited on every run: subset of propext, Classical.choice, Quot.sound; "
            "no sorry/admit/axiom/native_decide); the statements in lean/Memterm/Props/{id}.lean as the reading of the property; "
            "the tie of the hand-written model (lean/Memterm/Screen|Sparse|Parser|Utf8|Step.lean) to /repo, which is checked on every run, not assumed: "
-           "constants and tables are regenerated from the compiled crate, and every transition the real crate performs in the run's sessions "
+           "constants, tables and the dispatch tables of parser_listener.rs (probed on the compiled crate) are regenerated on every run, and every transition the real crate performs in the run's sessions "
            "is compared with the model's step (differential, so bounded by the generators; distribution, the model branches compared and the raw-buffer agreement of the sparse layer are in the evidence). "
            "Modelled, not verified: rustc, HashMap, generator-rs, encoding_rs, unicode-width/-normalization (parameters of the model).")
 
@@ -33,7 +33,9 @@ CLAIMS = {
         text="Theorems over the defunctionalised recogniser, on the regenerated constants: text_ground, c0_ground, esc_final / esc_unknown_final / esc_hash / esc_percent / esc_charset, introducers, "
              "paramValue_spec (empty = 0, saturating at 9999 for digit runs of any length), csi_digit / csi_private / csi_embedded_control / csi_skip / csi_abort / csi_dollar / csi_final, "
              "csi_complete (for every list of digit strings and every final: exactly one dispatch with the decoded parameters, back in ground), csi_unknown_final, no_text_inside. "
-             "The tie is the lockstep comparison of the listener calls of the shipping parser with the model's, chunk by chunk, over generated, garbled and enumerated strings.",
+             "Dispatch.C03.dispatch_probes: the model's csi / escape / basic dispatch agree with what the compiled crate's dispatch functions call for every probed final, parameter-list shape and private flag "
+             "(regenerated and re-decided by the kernel on every run). The tie of the recogniser is the lockstep comparison of the listener calls of the shipping parser with the model's, chunk by chunk, "
+             "over generated, garbled, respelled and enumerated strings.",
         technique=TECH, design="7 (C03)",
         note="`ESC ] R` and `ESC ] p` return to ground at once (as in the source; the property text does not pin these two down)."),
     "C04": dict(
